@@ -276,13 +276,15 @@ example : OutInv (run (fun _ => true) c0 hist).1 :=
 example : (newWrites (run (fun _ => true) c0 hist).2).map seqOf = [some 42, some 43, some 44, some 45] := by
   decide +kernel
 
-/-- `new_messages_journaled_partial` applies to `hist` (its ResendRequest has EndSeqNo = 0), and
-`new_messages_readback` to the first five events of `hist` (no ResendRequest yet): all hypotheses are
-discharged for these concrete histories. -/
-example : True := by
-  have _h1 := new_messages_journaled_partial (fun _ => true) c0 hist c0_inv hist_ok hist_unbounded hist_max
-  have _h2 := new_messages_readback (fun _ => true) c0 (hist.take 5) c0_inv
+/-- the hypotheses of `new_messages_journaled_partial` hold for `hist` from `c0` (its ResendRequest has
+EndSeqNo = 0), those of `new_messages_readback` for the first five events (no ResendRequest yet) -/
+example : OutInv c0 ∧ (∀ ev ∈ hist, ev.ok ∧ isReset ev = false) ∧ (∀ ev ∈ hist, boundedResend ev = false) ∧
+    (run (fun _ => true) c0 hist).1.sess.nextOut ≤ sysMaxsize + 1 :=
+  ⟨c0_inv, hist_ok, hist_unbounded, hist_max⟩
+
+example : ∀ f ∈ newWrites (run (fun _ => true) c0 (hist.take 5)).2, ∀ n, seqOf f = some n →
+    (run (fun _ => true) c0 (hist.take 5)).1.journal.recoverOut n n = [f] :=
+  new_messages_readback (fun _ => true) c0 (hist.take 5) c0_inv
     (fun ev hev => hist_ok ev (List.mem_of_mem_take hev)) hist5_noResend
-  trivial
 
 end AsyncFix.Props.C05
